@@ -104,10 +104,17 @@ pub fn run(seed: u64, n: usize, outdir: &str, _corpus: Option<&str>) -> std::io:
         let csv2 = render(&mut rng, &small);
         let do_build = wellformed && i % 4 == 0;
         let reload = rng.chance(1, 2);
+        let with_bigram = if rng.chance(1, 3) { 1 + rng.below(2) } else { 0 };
         let stored = if !do_build { Outcome::Err } else { guarded(move || {
             let mut m = String::from("4 4\n");
             for r in 0..4 { for l in 0..4 { m.push_str(&format!("{} {} 0\n", r, l)); } }
-            let d = vibrato::SystemDictionaryBuilder::from_readers(csv2.as_bytes(), m.as_bytes(), "DEFAULT 0 1 0\n".as_bytes(), "DEFAULT,0,0,1,u\n".as_bytes())?;
+            // 1 compiled dictionary in 3 gets a raw or dual connector from bigram files instead of matrix.def (the rows keep their ids)
+            let d = if with_bigram == 0 {
+                vibrato::SystemDictionaryBuilder::from_readers(csv2.as_bytes(), m.as_bytes(), "DEFAULT 0 1 0\n".as_bytes(), "DEFAULT,0,0,1,u\n".as_bytes())?
+            } else {
+                let rows3 = "1\tA\n2\tB\n3\tA\n";
+                vibrato::SystemDictionaryBuilder::from_readers_with_bigram_info(csv2.as_bytes(), rows3.as_bytes(), rows3.as_bytes(), "A/B\t3\n".as_bytes(), "DEFAULT 0 1 0\n".as_bytes(), "DEFAULT,0,0,1,u\n".as_bytes(), with_bigram == 2)?
+            };
             // half of the compiled dictionaries are observed after a write / read round trip
             if reload { let mut buf = vec![]; d.write(&mut buf)?; vibrato::Dictionary::read(&buf[..]) } else { Ok(d) }
         }) };
@@ -162,7 +169,7 @@ pub fn run(seed: u64, n: usize, outdir: &str, _corpus: Option<&str>) -> std::io:
                     w.tokenize();
                     let (ends, _, _) = w.verif_lattice_dump();
                     let n = sf2.chars().count();
-                    ends.get(n).map(|v| v.iter().filter(|x| x[1] == 0 && x[2] == 0).map(|x| x[3] as u64).collect::<Vec<u64>>()).unwrap_or_default()
+                    ends.get(n).map(|v| v.iter().filter(|x| x[1] == 0 && x[2] == 0).map(|x| x[3] as u64 * 16 + x[4] as u64 * 4 + x[5] as u64).collect::<Vec<u64>>()).unwrap_or_default()
                 }));
                 match ids {
                     Outcome::Ok(v) => homs.push((sf, v)),
